@@ -3,6 +3,7 @@ package harness
 import (
 	"bufio"
 	"crypto/sha256"
+	"errors"
 	"encoding/hex"
 	"fmt"
 	"os"
@@ -182,7 +183,7 @@ func init() {
 				{"deterministic commit, 64 workers", false, 64}, {"deterministic commit (repeat)", false, cs.Cfg.Workers},
 				{"order-relaxed commit, 3 workers", true, 3}}
 			var refLogs [][]LogEntry
-			var refRegs map[atree.SlabID][]byte
+			var refRegs, refFail map[atree.SlabID][]byte
 			var first *CaseStats
 			for ri, r := range runs {
 				cfg := cs.Cfg
@@ -239,11 +240,29 @@ func init() {
 				if orderErr != nil {
 					return first, fmt.Errorf("%s: %w", r.name, orderErr)
 				}
+				finalRegs := e.L.Snapshot()
+				// epilogue (deterministic flavour): one more commit that FAILS because a value of the highest-keyed root
+				// cannot be encoded while every other root is dirty too - what the failed commit leaves in the ledger must
+				// not depend on the number of workers or on the order in which the encodings arrive
+				if !r.nondet {
+					fr, err := failingCommitEpilogue(e, r.workers)
+					if err != nil {
+						return first, fmt.Errorf("%s: %w", r.name, err)
+					}
+					if fr != nil {
+						if refFail == nil {
+							refFail = fr
+						} else if d := DiffRegs(refFail, fr); d != "" {
+							return first, fmt.Errorf("%s: after a commit that failed in an encoder the registers differ from %s: %s", r.name, runs[0].name, d)
+						}
+						first.label("failed_commit_compared")
+					}
+				}
 				if ri == 0 {
-					refLogs, refRegs = logs, e.L.Snapshot()
+					refLogs, refRegs = logs, finalRegs
 					continue
 				}
-				if d := DiffRegs(refRegs, e.L.Regs); d != "" {
+				if d := DiffRegs(refRegs, finalRegs); d != "" {
 					return first, fmt.Errorf("%s: final registers differ from %s: %s", r.name, runs[0].name, d)
 				}
 				if len(logs) != len(refLogs) {
@@ -284,6 +303,51 @@ func init() {
 		Rule:       "a commit with >=3 dirty slabs in a history that also deletes; each case is run 5x in-process (workers 1/N/64, repeat, order-relaxed) and its register digest is compared with a second OS process",
 		Slab:       caseSlab,
 	})
+}
+
+// failingCommitEpilogue dirties every owned root, gives the root with the highest slab identifier a value whose encoding
+// fails, commits (the commit must fail) and returns the registers the failed commit left behind (nil if the case has no
+// suitable root).
+func failingCommitEpilogue(e *Engine, workers int) (map[atree.SlabID][]byte, error) {
+	var last *Node
+	for _, r := range e.Roots {
+		if r.Addr == atree.AddressUndefined || (r.IsMap && (r.TI.Comp || r.Dig != nil)) {
+			continue
+		}
+		if last == nil || r.Root.Compare(last.Root) > 0 {
+			last = r
+		}
+	}
+	if last == nil || len(e.Roots) < 2 {
+		return nil, nil
+	}
+	for _, r := range e.Roots {
+		if r.Addr == atree.AddressUndefined {
+			continue
+		}
+		if err := e.acquire(r); err != nil {
+			return nil, err
+		}
+		var v atree.Value = U64(424242)
+		if r == last {
+			v = FailEnc{}
+		}
+		if r.IsMap {
+			if r.TI.Comp || r.Dig != nil {
+				continue
+			}
+			if _, err := r.HM.Set(e.CB.Compare, e.CB.HashInput, U64(987654321987), v); err != nil {
+				return nil, fmt.Errorf("epilogue Set failed: %v", err)
+			}
+		} else if err := r.HA.Append(v); err != nil {
+			return nil, fmt.Errorf("epilogue Append failed: %v", err)
+		}
+	}
+	err := e.St.FastCommit(workers)
+	if err == nil || !errors.Is(err, ErrInjected) {
+		return nil, fmt.Errorf("a commit with an unencodable value returned %v", err)
+	}
+	return e.L.Snapshot(), nil
 }
 
 // ---------------------------------------------------------------- cross-process determinism (C04)
